@@ -96,9 +96,25 @@ pub struct Prog {
     /// Enable the recompose NPO tables on the builder (only meaningful for D > 1).
     #[serde(default)]
     pub recompose_npo: bool,
+    /// Packing / flavour of the recompose tables (only with `recompose_npo`, D > 1):
+    /// 0 = standard table, one lane; 1 = standard, two lanes; 2 = split `recompose/coeff` tables
+    /// (decomposition links routed through the coefficient-lookup table), one lane; 3 = split, two
+    /// lanes; 4 = split, three lanes.
+    #[serde(default)]
+    pub recompose_variant: u8,
 }
 
 impl Prog {
+    /// (lanes, split coefficient tables) of the recompose tables for this program.
+    pub fn recompose_cfg(&self) -> (usize, bool) {
+        match self.recompose_variant {
+            1 => (2, false),
+            2 => (1, true),
+            3 => (2, true),
+            4 => (3, true),
+            _ => (1, false),
+        }
+    }
     pub fn n_vars(&self, d: usize) -> usize {
         self.stmts.iter().map(|s| s.n_out(d)).sum()
     }
@@ -390,6 +406,9 @@ pub fn build<S: Setup>(prog: &Prog) -> Result<Built<S>, CircuitBuilderError> {
     let mut b = CircuitBuilder::<S::E>::new();
     if prog.recompose_npo && S::D > 1 {
         b.enable_recompose::<S::B>(p3_circuit::ops::generate_recompose_trace::<S::B, S::E>);
+        if prog.recompose_cfg().1 {
+            b.set_recompose_coeff_ctl_for_decompose_links(true);
+        }
     }
     let mut vars: Vec<ExprId> = vec![];
     for st in &prog.stmts {
@@ -661,6 +680,7 @@ pub fn remove_stmt(prog: &Prog, d: usize, si: usize) -> Option<(Prog, Option<usi
         Prog {
             stmts,
             recompose_npo: prog.recompose_npo,
+            recompose_variant: prog.recompose_variant,
         },
         pub_pos,
         priv_pos,
